@@ -25,7 +25,8 @@ def _generic_replay(path):
     prefix = tuple(tuple(x) for x in v["prefix"])
     opts = v.get("opts", {})
     rec = driver.run_program(v["prog"], prefix, kinds=tuple(opts.get("kinds", "PTK")),
-                             kill_code=opts.get("kill_code", -9))
+                             kill_code=opts.get("kill_code", -9),
+                             kill_when=opts.get("kill_when"))
     print(explore.render(rec))
     print("signature on file:", v.get("signature"))
     return 0
